@@ -419,6 +419,9 @@ type RunConfig struct {
 	CheckImmutable   bool // compare the input's serialisation before/after encoding
 	ConsumerOpts     []arrow_record.Option
 	StopAtDecodeFail bool
+	// AfterBatch, when set, is called after batch k has been encoded (and
+	// decoded); the producer and the consumer stay open while it runs.
+	AfterBatch func(k int)
 }
 
 // RunStream executes a stream case against the real producer and consumer.
@@ -479,6 +482,9 @@ func RunStream(c *StreamCase, rc RunConfig) (*StreamResult, error) {
 		if cons != nil && rc.StopAtDecodeFail && (br.Decoded.Err != nil || br.Decoded.Panic != nil) {
 			res.Aborted = true
 			break
+		}
+		if rc.AfterBatch != nil {
+			rc.AfterBatch(len(res.Batches) - 1)
 		}
 	}
 	res.ClosePan = catch(func() { res.CloseErr = p.Close() })
